@@ -1,6 +1,7 @@
 CONSTANTS
   V = {"norollback"}
   MaxN = 3
+  Vary = FALSE
 SPECIFICATION Spec
 INVARIANTS TypeOK ExactlyOnce
 CHECK_DEADLOCK FALSE
